@@ -20,7 +20,10 @@ H = Harness("C06", ["OQ.Base.CaseEq", "OQ.Serde.Expr", "OQ.Circ.Bind", "OQ.Circ.
             "built directly and through .controlled/.dagger/.power/.exp; maps partial, total, superfluous, values Python "
             "numbers, sympy rationals, symbols, expressions; Power/Exponential anywhere => refusal), two-step (bind m1 then "
             "m2 vs the union), custom-matrix (arguments that mention the definition's own formals), replace_params (incl. "
-            "Power/Exponential re-wrapping and its ValueError), unitary (fully symbolic circuits, circuit matrix); parameters "
+            "Power/Exponential re-wrapping and its ValueError), unitary (fully symbolic circuits, circuit matrix), history (ONE "
+            "dict object reused for 2-4 successive binds of a circuit / its operations / its gates, updated in place in "
+            "between: value changed, key added, key removed, cleared and refilled; every bind compared with the model on the "
+            "contents at that time; the object holds a bare-symbol and an expression parameter); parameters "
             "from the grammar symbol | integer | dyadic rational | + | * | - | **k | sin | cos | f | g; non-trivial = the map "
             "binds at least one free symbol, or the operation under test has a wrapper or symbolic argument")
 
@@ -234,19 +237,39 @@ INTERP = {"f": lambda *a: 1 + sum((i + 2) * x for i, x in enumerate(a)),
           "g": lambda *a: 2 + sum((i + 3) * x * x for i, x in enumerate(a))}
 
 
+def interp(e):
+    """replace every applied undefined function, innermost first (Basic.replace leaves nested ones behind)"""
+    if isinstance(e, sympy.MatrixBase):
+        return e.applyfunc(interp)
+    if not isinstance(e, sympy.Basic) or not e.args:
+        return e
+    args = [interp(a) for a in e.args]
+    if isinstance(e, AppliedUndef):
+        return INTERP[e.func.__name__](*args)
+    return e.func(*args)
+
+
+def rationalize(e):
+    """Floats -> the exact rationals they stand for (1.0 and 1 are the same value; sympy keeps them apart)"""
+    fl = e.atoms(sympy.Float)
+    if not fl:
+        return e
+    return e.xreplace({f: sympy.Rational(*[int(t) for t in to_rational(f._mpf_)]) for f in fl})
+
+
 def numeric(M, env):
     """sympy matrix / expression -> complex numpy array at the environment {name: Fraction}."""
     if isinstance(M, np.ndarray):
         return np.array(M, dtype=complex)
     M = sympy.Matrix(M) if not isinstance(M, sympy.MatrixBase) else M
-    M = M.replace(lambda e: isinstance(e, AppliedUndef), lambda e: INTERP[e.func.__name__](*e.args))
+    M = interp(M)
     M = M.xreplace({s: sympy.Rational(env[s.name][0], env[s.name][1]) for s in M.free_symbols})
     return np.array(M.evalf(30).tolist(), dtype=complex)
 
 
 def num_expr(e, env):
     """sympy expression -> sympy number (30 digits) at the environment"""
-    e = e.replace(lambda t: isinstance(t, AppliedUndef), lambda t: INTERP[t.func.__name__](*t.args))
+    e = interp(e)
     return e.xreplace({s: sympy.Rational(env[s.name][0], env[s.name][1]) for s in e.free_symbols}).evalf(30)
 
 
@@ -257,7 +280,7 @@ def as_expr(p):
 def same_param(a, b):
     if isinstance(a, (int, float)) or isinstance(b, (int, float)):
         return type(a) == type(b) and a == b
-    return sympy.expand(a - b) == 0
+    return sympy.expand(rationalize(sympy.sympify(a)) - rationalize(sympy.sympify(b))) == 0
 
 
 def chain(g):
@@ -540,6 +563,96 @@ def gen(rng, tier):
                  for s in syms]
             yield dict(kind="unitary", ops=ops, n=width, map=m, envs=envs)
 
+
+def g_nonbare(rng, syms, trig, floats):
+    """an expression parameter that is certainly not a bare symbol and mentions syms[0]"""
+    a = ["sym", syms[0]]
+    r = rng.random()
+    if r < 0.25:
+        return ["mul", ["rat", 1, 2], a]
+    if r < 0.45:
+        return ["mul", ["int", rng.choice([2, 3, -1])], a]
+    if r < 0.7 and len(syms) > 1:
+        return ["add", a, ["sym", syms[1]]]
+    return ["add", ["mul", ["int", 2], a], g_expr(rng, syms, 1, trig, 2)]
+
+
+def g_history(rng):
+    """one dict object, 2-4 binds, edited in place in between"""
+    trig = rng.random() < 0.5
+    floats = not trig and rng.random() < 0.6
+    syms = rng.sample(SYMS[:11], rng.randint(2, 4))
+    extra = [s for s in SYMS if s not in syms]
+    vsyms, spare = extra[:2], extra[2:5]       # symbols for values (never keys) / superfluous keys
+    width = rng.randint(2, 4)
+    mixed = rng.sample(syms, len(syms))
+    bare, expr = ["sym", mixed[0]], g_nonbare(rng, mixed[1:] + mixed[:1], trig, floats)
+    r = rng.random()
+    if r < 0.3:
+        first = ["phase", [bare, expr, g_param(rng, syms, trig, floats), g_nonbare(rng, mixed, trig, floats)]]
+    else:
+        if r < 0.55:
+            j, nq = ["builtin", "U3", [bare, expr, g_param(rng, syms, trig, floats)]], 1
+        elif r < 0.75:
+            j, nq = ["builtin", "MS", [expr, bare]], 2
+        elif r < 0.9:
+            j, nq = ["custom", 1, [bare, expr]], 1
+        else:
+            j, nq = ["custom", 2, [expr, bare]], 2
+        for _ in range(rng.choice([0, 0, 1, 2])):
+            mode = rng.choice(["direct", "method"])
+            if rng.random() < 0.5 and nq < width:
+                j, nq = ["ctrl", 1, j, mode], nq + 1
+            else:
+                j = ["dag", j, mode]
+        first = ["gate", j, rng.sample(range(width), nq)]
+    ops = [first] + g_ops(rng, syms, trig, floats, rng.randint(0, 3), width)
+    rng.shuffle(ops)
+
+    def value():
+        r = rng.random()
+        if r < 0.7:
+            return g_pynum(rng, floats) if rng.random() < 0.5 else g_number(rng, False)
+        if r < 0.85:
+            return ["sym", rng.choice(vsyms)]
+        return g_expr(rng, vsyms, 1, trig, 2)
+    cur, steps = {}, []
+    for i in range(rng.randint(2, 4)):
+        edits = []
+        if i == 0:
+            for k in [s for s in syms if rng.random() < 0.7] or [syms[0]]:
+                edits.append(["set", k, value()])
+        else:
+            act = rng.choice(["change", "change", "add", "remove", "refill", "mixed"])
+            present = list(cur)
+            absent = [s for s in syms + spare if s not in cur]
+            if act == "refill" or not present:
+                edits.append(["clear"])
+                for k in rng.sample(absent or syms, min(len(absent or syms), rng.randint(1, 2))):
+                    edits.append(["set", k, value()])
+            else:
+                if act in ("change", "mixed"):
+                    edits.append(["set", rng.choice(present), value()])
+                if act in ("add", "mixed") and absent:
+                    edits.append(["set", rng.choice(absent), value()])
+                if act in ("remove", "mixed") or not edits:
+                    edits.append(["del", rng.choice(present)])
+        for e in edits:
+            if e[0] == "clear":
+                cur.clear()
+            elif e[0] == "del":
+                cur.pop(e[1], None)
+            else:
+                cur[e[1]] = e[2]
+        steps.append(dict(edits=edits, chain=i > 0 and rng.random() < 0.5, via=rng.choice(["circuit", "circuit", "ops", "gates"])))
+    return dict(kind="history", ops=ops, n=width, steps=steps, envs=g_envs(rng, SYMS))
+
+
+def gen_all(rng, tier):
+    yield from gen(rng, tier)
+    for _ in range({"quick": 60, "search": 300}.get(tier, 900)):
+        yield g_history(rng)
+
 # ----------------------------------------------------------------------------- cases
 
 
@@ -547,9 +660,19 @@ def env_of(envs, i=0):
     return {n: v for n, v in envs[i]}
 
 
-def run_bind(c, m, envs):
+def bind_via(c, m, via):
+    """bind a circuit through Circuit.bind, through each operation's bind, or through each gate's bind"""
+    if via == "circuit":
+        return c.bind(m)
+    if via == "ops":
+        return Circuit([o.bind(m) for o in c.operations], n_qubits=c.n_qubits)
+    return Circuit([o.gate.bind(m)(*o.qubit_indices) if isinstance(o, G.GateOperation) else o.bind(m)
+                    for o in c.operations], n_qubits=c.n_qubits)
+
+
+def run_bind(c, m, envs, via="circuit"):
     """one Circuit.bind: returns (coq check text, oracle message, outcome)"""
-    st, out = outcome(lambda: c.bind(m), timeout=30)
+    st, out = outcome(lambda: bind_via(c, m, via), timeout=30)
     chk = f"bind_case {d_circuit(c)} {d_map(m)} {d_envs(envs)} {d_res(st, out, d_circuit)} && {free_case(c)}"
     msg = ""
     refused = [o for o in c.operations if isinstance(o, G.GateOperation) and has_pe(o.gate)]
@@ -610,6 +733,31 @@ def run_case(inp):
                     msg = f"free symbols after two steps {c2.free_symbols}, after one {c3.free_symbols}"
         return dict(chk=f"{chk1} && {chk2} && {chk3}", oracle_ok=not msg, oracle_msg=msg, kind=kind,
                     nontrivial=bool(m1) and bool(m2))
+    if kind == "history":
+        c0 = b_circuit(inp)
+        m = {}                                    # the one dict object every step binds with
+        cur, chks, msg, changed, prev = c0, [], "", 0, None
+        for i, step in enumerate(inp["steps"]):
+            for e in step["edits"]:
+                if e[0] == "clear":
+                    m.clear()
+                elif e[0] == "del":
+                    m.pop(sympy.Symbol(e[1]), None)
+                else:
+                    m[sympy.Symbol(e[1])] = b_param(e[2])
+            snapshot = dict(m)
+            changed += prev is not None and snapshot != prev
+            prev = snapshot
+            target = cur if step["chain"] else c0
+            chk, smsg, (st, out) = run_bind(target, m, envs, step["via"])
+            chks.append(chk)
+            if smsg and not msg:
+                msg = f"step {i + 1} (same dict, now {snapshot}, bound through {step['via']}): {smsg}"
+            if m != snapshot and not msg:
+                msg = f"step {i + 1}: bind modified the caller's map"
+            if st == "ok":
+                cur = out
+        return dict(chk=" && ".join(chks), oracle_ok=not msg, oracle_msg=msg, kind=kind, nontrivial=changed > 0)
     if kind == "custom-matrix":
         d = DEFS[inp["d"]]
         ps = [b_param(p) for p in inp["ps"]]
@@ -682,4 +830,4 @@ def w_f27():
         return True, f"Circuit([RX(x)(0), ResetOperation(1)]).bind({{x: 1}}) raised {type(e).__name__}: {e}"
 
 
-H.main(gen, run_case, {"F17": w_f17, "F27": w_f27})
+H.main(gen_all, run_case, {"F17": w_f17, "F27": w_f27})
